@@ -84,14 +84,14 @@ theorem bal_lt_W_run {name : Asset → String} (a : Asset) (ops : List Op) (w : 
 `hS0`, `hb0`, `hb1` on the initial world -/
 theorem withdraw_live_reachable {name : Asset → String} {p : Nat} {a0 a1 : Asset} {lp : Nat}
     (ops : List Op) (w : World) (hinv : PairInv w p a0 a1 lp) (hv : ValidRun name w ops)
-    {h a : Nat} (hhp : h ≠ p) (ha1 : 1 ≤ a)
+    {h a : Nat} (hhp : h ≠ p) (hvalid : w.badAddr h = false) (ha1 : 1 ≤ a)
     (hab : a ≤ bal (run name w ops) (.token lp) h)
     (hS0 : supply w lp < W) (hb0 : AssetBound w a0) (hb1 : AssetBound w a1)
     (hent0 : (bal (run name w ops) a0 p + 2 * E) * supply (run name w ops) lp ≤ bal (run name w ops) a0 p * a * E)
     (hent1 : (bal (run name w ops) a1 p + 2 * E) * supply (run name w ops) lp ≤ bal (run name w ops) a1 p * a * E) :
     ∃ w' x0 x1, exec name (run name w ops) (.tokSend lp h p a .withdraw) = .ok (w', .withdraw x0 x1) ∧
       2 ≤ x0 ∧ 2 ≤ x1 :=
-  Halo.Bounds.withdraw_live_reachable ops w hinv hv hhp ha1 hab hS0 hb0 hb1 hent0 hent1
+  Halo.Bounds.withdraw_live_reachable ops w hinv hv hhp hvalid ha1 hab hS0 hb0 hb1 hent0 hent1
 
 /-- `C20W.withdraw_live_from_creation` likewise: the bounds are those of the world in which the pair is created
 (its LP token starts with supply 0 and needs none) -/
@@ -100,13 +100,13 @@ theorem withdraw_live_reachable_from_creation {name : Asset → String} {w w1 : 
     (hv : ValidOp w (.factory s f (.createPair a0 a1 req c ld np nl))) (hn : NewAddrs w np nl)
     (hc : exec name w (.factory s f (.createPair a0 a1 req c ld np nl)) = .ok (w1, out))
     (ops : List Op) (hvr : ValidRun name w1 ops)
-    {h a : Nat} (hhp : h ≠ np) (ha1 : 1 ≤ a)
+    {h a : Nat} (hhp : h ≠ np) (hvalid : w.badAddr h = false) (ha1 : 1 ≤ a)
     (hab : a ≤ bal (run name w1 ops) (.token nl) h)
     (hb0 : AssetBound w a0) (hb1 : AssetBound w a1)
     (hent0 : (bal (run name w1 ops) a0 np + 2 * E) * supply (run name w1 ops) nl ≤ bal (run name w1 ops) a0 np * a * E)
     (hent1 : (bal (run name w1 ops) a1 np + 2 * E) * supply (run name w1 ops) nl ≤ bal (run name w1 ops) a1 np * a * E) :
     ∃ w' x0 x1, exec name (run name w1 ops) (.tokSend nl h np a .withdraw) = .ok (w', .withdraw x0 x1) ∧
       2 ≤ x0 ∧ 2 ≤ x1 :=
-  Halo.Bounds.withdraw_live_reachable_from_creation hv hn hc ops hvr hhp ha1 hab hb0 hb1 hent0 hent1
+  Halo.Bounds.withdraw_live_reachable_from_creation hv hn hc ops hvr hhp hvalid ha1 hab hb0 hb1 hent0 hent1
 
 end Halo.Props.C20B
